@@ -198,7 +198,7 @@ func CoordMain(propID, tier string, seed uint64, runsOverride int) int {
 	fmt.Printf("vsim: property=%s tier=%s seed=%d runs=%d workers=%d batch=%d\n", propID, tier, seed, total, nw, batch)
 	cs := &coordState{total: total, batch: batch, stopAt: start.Add(wallCap), sigs: map[uint64]struct{}{},
 		knowns: map[string]wireKnown{}, knownN: map[string]int{},
-		agg: wireBatch{Faults: map[string]int{}, Probes: map[string]int{}}}
+		agg: wireBatch{Faults: map[string]int{}, Probes: map[string]int{}, Maxes: map[string]int64{}}}
 
 	var wg sync.WaitGroup
 	for i := 0; i < nw; i++ {
@@ -286,7 +286,7 @@ func CoordMain(propID, tier string, seed uint64, runsOverride int) int {
 		if f != nil {
 			what = f.What
 		}
-		fmt.Printf("KNOWN-FINDING: property=%s class=%s hits=%d %s\n", propID, k, cs.knownN[k], what)
+		fmt.Printf("KNOWN-FINDING: property=%s class=%s hits=%d first_run=%d %s\n", propID, k, cs.knownN[k], w.Idx, what)
 	}
 	for _, l := range violLines {
 		fmt.Println(l)
@@ -478,6 +478,11 @@ func (cs *coordState) merge(b *wireBatch) {
 	}
 	for k, v := range b.Probes {
 		cs.agg.Probes[k] += v
+	}
+	for k, v := range b.Maxes {
+		if cur, ok := cs.agg.Maxes[k]; !ok || v > cur {
+			cs.agg.Maxes[k] = v
+		}
 	}
 	if len(cs.agg.Samples) < 6 {
 		cs.agg.Samples = append(cs.agg.Samples, b.Samples...)
